@@ -181,7 +181,7 @@ func makeLoopDecorator(loop loopRenderer, ctx render.Context) (loopDecorator, er
 			if err != nil {
 				return nil, err
 			}
-			cols, ok := val.(int)
+			cols, ok := intOf(val)
 			if !ok {
 				return nil, ctx.Errorf("loop cols must be an integer")
 			}
@@ -233,6 +233,21 @@ func (c tableRowDecorator) after(w io.Writer, i, l int) error {
 	return nil
 }
 
+// intOf returns an integer of any width (an int64 from divided_by, a uint8 from a binding)
+// as an int, if it is an int's worth.
+func intOf(val any) (int, bool) {
+	rv := reflect.ValueOf(val)
+	switch {
+	case !rv.IsValid():
+		return 0, false
+	case rv.CanInt() && int64(int(rv.Int())) == rv.Int():
+		return int(rv.Int()), true
+	case rv.CanUint() && rv.Uint() <= math.MaxInt:
+		return int(rv.Uint()), true
+	}
+	return 0, false
+}
+
 func applyLoopModifiers(loop expressions.Loop, ctx render.Context, iter iterable) (iterable, error) {
 	if loop.Reversed {
 		iter = reverseWrapper{iter}
@@ -243,7 +258,7 @@ func applyLoopModifiers(loop expressions.Loop, ctx render.Context, iter iterable
 		if err != nil {
 			return nil, err
 		}
-		offset, ok := val.(int)
+		offset, ok := intOf(val)
 		if !ok {
 			return nil, ctx.Errorf("loop offset must be an integer")
 		}
@@ -257,7 +272,7 @@ func applyLoopModifiers(loop expressions.Loop, ctx render.Context, iter iterable
 		if err != nil {
 			return nil, err
 		}
-		limit, ok := val.(int)
+		limit, ok := intOf(val)
 		if !ok {
 			return nil, ctx.Errorf("loop limit must be an integer")
 		}
